@@ -318,4 +318,140 @@ def lrun (base : Path) (ops : List LOp) : LState := ops.foldl (lstep base) {}
 def localResolvePassThrough (base p : Path) : Res :=
   if base != [] && base != [47] && hasPrefix p (base ++ [47]) then .ok p else resolvePath base p
 
+/-! ### symbolic links MADE by the filesystem, moved by the filesystem, and read through
+    (os/localfs/localfs.go `Symlink`, `Rename`, `Remove`/`RemoveAll`, then any read).
+
+    Every single argument of these calls is confined lexically (above).  What a LINK denotes,
+    however, is decided by the host kernel when the link is used: an absolute content is walked
+    from the root, a relative content from the directory the link lies in AT THAT MOMENT.
+    `Rename` moves links (and directories with links in them) without touching their content.
+    So the question "does the tree stay closed under the filesystem's own operations" is about
+    SEQUENCES: which links exist where, with which content, after any number of confined
+    calls, and where a read through them ends.
+
+    State: the links the session made, as (physical location as components from the host
+    root, content).  Whether the kernel lets a call succeed (`ok`: existence, emptiness of
+    directories, …) is a parameter of the model, like the generated name of `MkdirTemp`. -/
+
+abbrev Links := List (List Path × Path)
+
+def linkAt (links : Links) (loc : List Path) : Option Path :=
+  match links.find? (fun e => e.1 == loc) with
+  | some e => some e.2
+  | none => none
+
+/-- the host kernel's walk of a path: `cur` = the directory reached so far (components from the
+    root, no links left in it), then the remaining components one by one; a component that is a
+    link is replaced by its content (absolute: start again at the root; relative: continue in
+    the directory of the link).  `fuel` bounds the number of steps (the kernel gives up with
+    ELOOP). -/
+def kwalk (links : Links) : Nat → List Path → List Path → Option (List Path)
+  | 0, _, _ => none
+  | _ + 1, cur, [] => some cur
+  | fuel + 1, cur, c :: rest =>
+    if c = [] ∨ c = [46] then kwalk links fuel cur rest
+    else if c = dotdot then kwalk links fuel cur.dropLast rest
+    else match linkAt links (cur ++ [c]) with
+      | some content => kwalk links fuel (if isAbs content then [] else cur) (split content ++ rest)
+      | none => kwalk links fuel (cur ++ [c]) rest
+
+/-- where a host path string leads (all links followed); `cwd` = the process's working
+    directory as components -/
+def hostWalk (links : Links) (cwd : List Path) (fuel : Nat) (r : Path) : Option (List Path) :=
+  kwalk links fuel (if isAbs r then [] else cwd) (split r)
+
+def plainComp (c : Path) : Bool := c != [] && c != [46] && c != dotdot
+
+/-- the directory entry a host path string names (the last component is NOT followed: what
+    `symlink`, `rename`, `unlink` act on) -/
+def physLoc (links : Links) (cwd : List Path) (fuel : Nat) (r : Path) : Option (List Path) :=
+  match (split r).getLast? with
+  | none => none
+  | some last =>
+    if plainComp last then
+      match kwalk links fuel (if isAbs r then [] else cwd) (split r).dropLast with
+      | some d => some (d ++ [last])
+      | none => none
+    else hostWalk links cwd fuel r
+
+def relocate (a b loc : List Path) : List Path :=
+  if isCompPrefix a loc then b ++ loc.drop a.length else loc
+
+inductive KOp where
+  | symlink (old new : Path) (ok : Bool)
+  | rename (old new : Path) (ok : Bool)
+  | remove (p : Path) (ok : Bool)          -- Remove and RemoveAll
+  deriving Repr, DecidableEq
+
+/-- one call; `content r1 r2` is what `Symlink` writes into the link, given the two RESOLVED
+    host paths (target, link) -/
+def kstepG (content : Path → Path → Path) (base : Path) (cwd : List Path) (fuel : Nat)
+    (links : Links) : KOp → Links
+  | .symlink old new ok =>
+    match localResolve base old, localResolve base new with
+    | .ok r1, .ok r2 =>
+      if ok then
+        match physLoc links cwd fuel r2 with
+        | some loc => (loc, content r1 r2) :: links
+        | none => links
+      else links
+    | _, _ => links
+  | .rename old new ok =>
+    match localResolve base old, localResolve base new with
+    | .ok r1, .ok r2 =>
+      if ok then
+        match physLoc links cwd fuel r1, physLoc links cwd fuel r2 with
+        | some a, some b =>
+          if a = b then links
+          else (links.filter (fun e => !isCompPrefix b e.1)).map (fun e => (relocate a b e.1, e.2))
+        | _, _ => links
+      else links
+    | _, _ => links
+  | .remove p ok =>
+    match localResolve base p with
+    | .ok r =>
+      if ok then
+        match physLoc links cwd fuel r with
+        | some a => links.filter (fun e => !isCompPrefix a e.1)
+        | none => links
+      else links
+    | .invalid => links
+
+/-- the code: `os.Symlink(resolvedOld, resolvedNew)` — the content is the resolved host path of
+    the target -/
+def kstep := kstepG (fun r1 _ => r1)
+
+def krun (base : Path) (cwd : List Path) (fuel : Nat) (ops : List KOp) : Links :=
+  ops.foldl (kstep base cwd fuel) []
+
+/-- a read (Stat, ReadFile, Open, ReadDir, …) of `p` with the links `links` in place: the host
+    file it ends at -/
+def kread (base : Path) (cwd : List Path) (fuel : Nat) (links : Links) (p : Path) : Option (List Path) :=
+  match localResolve base p with
+  | .ok r => hostWalk links cwd fuel r
+  | .invalid => none
+
+/-- Spec, per link: where the link points, read the way the kernel reads it (lexically: absolute
+    content from the root, relative content from the directory of the link) -/
+def linkTarget (e : List Path × Path) : List Path :=
+  cleanComps true (if isAbs e.2 then split e.2 else e.1.dropLast ++ split e.2)
+
+/-- Spec of the tree: no link leads out of the directory with the components `b` -/
+def linksClosed (b : List Path) (links : Links) : Bool :=
+  links.all (fun e => isCompPrefix b (linkTarget e))
+
+/-- NOT the code: `filepath.Rel(filepath.Dir(link), target)` for two clean host paths of the same
+    kind — "do not embed the host location of the base in the link".  Kept as an executable
+    definition so that `Props` can show that the tree is then NOT closed under `Rename`
+    (`relative_links_escape_after_rename`). -/
+def relComps : List Path → List Path → List Path
+  | a :: as, b :: bs => if a = b then relComps as bs else (a :: as).map (fun _ => dotdot) ++ (b :: bs)
+  | as, bs => as.map (fun _ => dotdot) ++ bs
+
+def relContent (r1 r2 : Path) : Path :=
+  let r := relComps (comps r2).dropLast (comps r1)
+  if r.isEmpty then [46] else joinSep r
+
+def kstepRel := kstepG relContent
+
 end Risor.C13
